@@ -33,7 +33,7 @@ ASSUMPTIONS = [
     "discarded as inconclusive and counted, never reported",
     "at most four such runs execute concurrently",
 ]
-MIN_NONTRIVIAL = {"quick": 6, "thorough": 60}
+MIN_NONTRIVIAL = {"quick": 6, "thorough": 24}
 SHARD_TIMEOUT = {"quick": 1500, "thorough": 7200}
 
 
